@@ -7,6 +7,9 @@ import (
 )
 
 func TestDbg(t *testing.T) {
+	if os.Getenv("SELF") == "" {
+		t.Skip("development helper: set SELF=<harness function>")
+	}
 	prog, err := Load("/verif", nil, []string{"verif/harness/selftest"}, []string{"GOFLAGS=-mod=mod", "GOPROXY=off", "GOSUMDB=off"})
 	if err != nil {
 		t.Fatal(err)
